@@ -117,6 +117,7 @@ func runTwo(c TwoCase) *pbt.Result {
 		})
 	}
 	for _, s := range []*side{a, b} {
+		s.pr.settle(-1)
 		s.pr.mu.Lock()
 		next := 0
 		for ci, pc := range s.pr.conns {
